@@ -3,7 +3,7 @@ import random
 import itertools
 from .C03 import _rank_profiles, _pick
 
-THOROUGH_SEEDS = 4
+THOROUGH_SEEDS = 6
 
 
 def cases(tier, seed):
@@ -13,7 +13,7 @@ def cases(tier, seed):
     # ---- cat: 2..3 operands, every axis, distinct sizes on the concatenated axis, distinct rank profiles
     base = [[3], [2, 3], [2, 1, 3], [1, 2, 2]]
     if th:
-        base += [[2, 3, 2, 2], [1, 1, 1]]
+        base += [[2, 3, 2, 2], [1, 1, 1], [4, 2], [3, 3, 3], [2, 1, 1, 2]]
     for N in base:
         d = len(N)
         ch = [1, 2, 3] if d <= 2 else [1, 2]
@@ -25,7 +25,7 @@ def cases(tier, seed):
                     Ni = list(N)
                     Ni[dim] = sizes[i]
                     Ns.append(Ni)
-                for rep in range(1 if not th else 3):
+                for rep in range(1 if not th else 4):
                     Rs = [_pick(_rank_profiles(d, ch), 1, rng)[0] for _ in range(nops)]
                     cs.append({'scen': 'tt_cat', 's': {'Ns': Ns, 'Rs': Rs, 'dim': dim, 'dtype': 'float64'}})
     cs.append({'scen': 'tt_cat', 's': {'Ns': [[2, 3], [1, 3]], 'Rs': [[1, 2, 1], [1, 3, 1]], 'dim': 0, 'dtype': 'complex128'}})
